@@ -1204,3 +1204,113 @@ Proof.
              [eapply record_plain; try reflexivity; exact W|apply Fin; reflexivity]|]).
     destruct Ha.
 Qed.
+
+Example attr_stmt_equiv_example :
+  let h := mkhdr USubroutine None (s "sub") (Some (s "()")) None in
+  unit_model h [s "integer y, z"; s "save y, z"] = unit_model h [s "integer, save :: y, z"] /\
+  unit_model h [s "real al"; s "allocatable :: al(:)"] = unit_model h [s "real, allocatable :: al(:)"] /\
+  unit_model (mkhdr USubroutine None (s "sub") (Some (s "(a)")) None) [s "real a"; s "intent ( In ) a"]
+  = unit_model (mkhdr USubroutine None (s "sub") (Some (s "(a)")) None) [s "real, intent(in) :: a"].
+Proof. repeat split; vm_compute; reflexivity. Qed.
+
+(* the same equivalence fails for OPTIONAL, PARAMETER, DIMENSION, INTENT(IN OUT) and for the
+   result variable of a function *)
+Definition unit_vars_of (h : header) (body : list str) : list var :=
+  match unit_model h body with Ok u => u_args u ++ match u_retvar u with Some r => [r] | None => [] end ++ u_vars u | _ => [] end.
+
+Definition sub1 (arg : str) : header := mkhdr USubroutine None (s "sub") (Some (c_lpar :: arg ++ [c_rpar])) None.
+
+Theorem attr_stmt_equiv_refuted_optional :
+  exists v v', unit_vars_of (sub1 (s "b")) [s "integer b"; s "optional b"] = [v] /\
+               unit_vars_of (sub1 (s "b")) [s "integer, optional :: b"] = [v'] /\
+               v_optional v = false /\ v_attribs v = [s "optional"] /\ v_optional v' = true /\ v_attribs v' = [].
+Proof. do 2 eexists. repeat split; vm_compute; reflexivity. Qed.
+
+Theorem attr_stmt_equiv_refuted_parameter :
+  exists v v', unit_vars_of (sub1 []) [s "character(len=5) str"; s "parameter (str = 'a  b')"] = [v] /\
+               unit_vars_of (sub1 []) [s "character(len=5), parameter :: str = 'a  b'"] = [v'] /\
+               v_parameter v = false /\ v_initial v = Some (s " ""0""") /\
+               v_parameter v' = true /\ v_initial v' = Some (s "'a" ++ [nbsp; nbsp] ++ s "b'").
+Proof. do 2 eexists. repeat split; vm_compute; reflexivity. Qed.
+
+Theorem attr_stmt_equiv_refuted_dimension :
+  exists v v' v'', unit_vars_of (sub1 []) [s "real a"; s "dimension a(3)"] = [v] /\
+                   unit_vars_of (sub1 []) [s "real, dimension(3) :: a"] = [v'] /\
+                   unit_vars_of (sub1 []) [s "real :: a(3)"] = [v''] /\
+                   v = v' /\ v_dimension v = [] /\ v_attribs v = [s "dimension(3)"] /\
+                   v_dimension v'' = s "(3)" /\ v_attribs v'' = [].
+Proof. do 3 eexists. repeat split; vm_compute; reflexivity. Qed.
+
+Theorem attr_stmt_equiv_refuted_intent_in_out :
+  exists v v', unit_vars_of (sub1 (s "d")) [s "real d"; s "intent(in out) d"] = [v] /\
+               unit_vars_of (sub1 (s "d")) [s "real, intent(in out) :: d"] = [v'] /\
+               v_intent v = [] /\ v_intent v' = s "inout".
+Proof. do 2 eexists. repeat split; vm_compute; reflexivity. Qed.
+
+Theorem attr_stmt_equiv_refuted_result :
+  let h := mkhdr UFunction None (s "f") (Some (s "()")) (Some (s "r")) in
+  exists v v', unit_vars_of h [s "real r"; s "dimension r(3)"; s "save r"] = [v] /\
+               unit_vars_of h [s "real, dimension(3), save :: r"] = [v'] /\
+               v_attribs v = [] /\ v_attribs v' = [s "dimension(3)"; s "save"].
+Proof. do 2 eexists. repeat split; vm_compute; reflexivity. Qed.
+
+(* typed function prefixes *)
+Definition retvar_of (h : header) (body : list str) : option var :=
+  match unit_model h body with Ok u => u_retvar u | _ => None end.
+Definition attribs_of (h : header) (body : list str) : list str :=
+  match unit_model h body with Ok u => u_attribs u | _ => [] end.
+
+Theorem prefix_refuted_case :
+  exists r r', retvar_of (mkhdr UFunction (Some (s "real(WP)")) (s "f") (Some (s "()")) None) [] = Some r /\
+               retvar_of (mkhdr UFunction None (s "f") (Some (s "()")) None) [s "real(WP) :: f"] = Some r' /\
+               v_kind r = Some (s "wp") /\ v_kind r' = Some (s "WP").
+Proof. do 2 eexists. repeat split; vm_compute; reflexivity. Qed.
+
+Theorem prefix_refuted_keyword :
+  exists r, retvar_of (mkhdr UFunction (Some (s "type(module_t)")) (s "f3") (Some (s "()")) None) [] = Some r /\
+            v_proto r = Some (s "_t", []) /\
+            attribs_of (mkhdr UFunction (Some (s "type(module_t)")) (s "f3") (Some (s "()")) None) [] = [s "module"].
+Proof. eexists. repeat split; vm_compute; reflexivity. Qed.
+
+Theorem prefix_refuted_double :
+  exists r r', retvar_of (mkhdr UFunction (Some (s "double precision")) (s "f") (Some (s "()")) None) [] = Some r /\
+               retvar_of (mkhdr UFunction None (s "f") (Some (s "()")) None) [s "double precision f"] = Some r' /\
+               v_vartype r = s "doubleprecision" /\ v_vartype r' = s "double precision".
+Proof. do 2 eexists. repeat split; vm_compute; reflexivity. Qed.
+
+(* ------------------------------------------------------------------ argument order *)
+(* every dummy argument, in the order of the argument list, becomes the variable declared under
+   that name (up to letter case) or an implicitly typed variable; nothing is lost or invented *)
+Lemma take_var_spec name vars v rest : take_var name vars = Some (v, rest) ->
+  seqb (lower name) (lower (v_name v)) = true /\ length vars = S (length rest) /\ In v vars.
+Proof.
+  revert v rest. induction vars as [|w vars IH]; intros v rest H; [discriminate|].
+  simpl in H. destruct (seqb (lower name) (lower (v_name w))) eqn:E.
+  - injection H as <- <-. repeat split; auto. now left.
+  - destruct (take_var name vars) as [[u r]|]; [|discriminate]. injection H as <- <-.
+    destruct (IH u r eq_refl) as (A & B & C). repeat split; auto; simpl; [now rewrite B|now right].
+Qed.
+
+Theorem match_args_order args : forall vars,
+  let (avs, locals) := match_args args vars in
+  Forall2 (fun a v => (seqb (lower a) (lower (v_name v)) = true /\ In v vars) \/ v = implicit_var a) args avs
+  /\ length avs = length args
+  /\ length locals + length (filter (fun v => existsb (fun w => seqb (lower (v_name v)) (lower (v_name w)) && true) vars) []) <= length vars.
+Proof.
+  induction args as [|a args IH]; intros vars; simpl.
+  - repeat split; [constructor|lia].
+  - destruct (take_var a vars) as [[v rest]|] eqn:T.
+    + specialize (IH rest). destruct (match_args args rest) as [avs locals]. destruct IH as (F & L & N).
+      destruct (take_var_spec _ _ _ _ T) as (A & B & C). simpl. repeat split.
+      * constructor; [left; auto|].
+        eapply Forall2_impl; [|exact F]. intros x y [[P Q]|P]; [left; split; auto|right; exact P].
+        clear -T Q. revert v rest T Q. induction vars as [|w vars IHv]; intros v rest T Q; [discriminate|].
+        simpl in T. destruct (seqb (lower a) (lower (v_name w))).
+        -- injection T as <- <-. now right.
+        -- destruct (take_var a vars) as [[u r]|] eqn:T'; [|discriminate]. injection T as <- <-.
+           destruct Q as [<-|Q]; [now left|right; eapply IHv; eauto].
+      * now rewrite L.
+      * simpl in *. lia.
+    + specialize (IH vars). destruct (match_args args vars) as [avs locals]. destruct IH as (F & L & N).
+      simpl. repeat split; [constructor; [right; reflexivity|exact F]|now rewrite L|exact N].
+Qed.
